@@ -71,7 +71,7 @@ class EndpointCollection:
 
                 collections = [endpoints_by_tag.setdefault(tag, EndpointCollection(tag=tag)) for tag in tags]
 
-                endpoint, schemas, parameters = Endpoint.from_data(
+                endpoint, endpoint_schemas, endpoint_parameters = Endpoint.from_data(
                     data=operation,
                     path=path,
                     method=method,
@@ -84,15 +84,18 @@ class EndpointCollection:
                 )
                 # Add `PathItem` parameters
                 if not isinstance(endpoint, ParseError):
-                    endpoint, schemas, parameters = Endpoint.add_parameters(
+                    endpoint, endpoint_schemas, endpoint_parameters = Endpoint.add_parameters(
                         endpoint=endpoint,
                         data=path_data,
-                        schemas=schemas,
-                        parameters=parameters,
+                        schemas=endpoint_schemas,
+                        parameters=endpoint_parameters,
                         config=config,
                     )
                 if not isinstance(endpoint, ParseError):
                     endpoint = Endpoint.sort_parameters(endpoint=endpoint)
+                if not isinstance(endpoint, ParseError):
+                    # Only an endpoint that will be generated keeps the classes it declared inline
+                    schemas, parameters = endpoint_schemas, endpoint_parameters
                 if isinstance(endpoint, ParseError):
                     endpoint.header = f"WARNING parsing {method.upper()} {path} within {'/'.join(tags)}. Endpoint will not be generated."
                     for collection in collections:
@@ -177,7 +180,7 @@ class Endpoint:
                 )
                 continue
 
-            response, schemas = response_from_data(
+            response, response_schemas = response_from_data(
                 status_code=status_code,
                 data=response_data,
                 schemas=schemas,
@@ -197,6 +200,7 @@ class Endpoint:
                     )
                 )
                 continue
+            schemas = response_schemas
 
             # No reasons to use lazy imports in endpoints, so add lazy imports to relative here.
             endpoint.relative_imports |= response.prop.get_lazy_imports(prefix=models_relative_prefix)
